@@ -116,10 +116,16 @@ def run(fn, module, args_src, timeout=6, unwrap_convert=False, glob_names=('G1',
       out['value'] = exc_class(src_e)
       out['exc_text'] = str(e)[:300]
     except BaseException as e:  # pylint:disable=broad-except
-      if type(e).__name__ != '_Overflow':
+      if type(e).__name__ == '_Overflow':
+        out['kind'] = 'overflow'
+        out['value'] = 'more than 20000 side-effect events'
+      elif type(e).__name__ == 'B1':
+        # the subject's own BaseException subclass
+        out['kind'] = 'exc'
+        out['value'] = 'B1'
+        out['exc_text'] = str(e)[:300]
+      else:
         raise
-      out['kind'] = 'overflow'
-      out['value'] = 'more than 20000 side-effect events'
   finally:
     signal.setitimer(signal.ITIMER_REAL, 0, 0)
     signal.signal(signal.SIGALRM, old)
